@@ -81,11 +81,20 @@ let cfg_of mn mx rp first limit =
 let load_of atom = match String.split_on_char ':' atom with
   | ["line"] -> load_line
   | ["char"] -> load_char
+  | ["jsstr"] -> load_jsstr
+  | ["attrs"] -> load_attrs
   | ["symbol"] -> load_symbol dEFAULT_CUT_BEFORE dEFAULT_CUT_AFTER
   | ["symbol"; b; a] -> load_symbol (bytes_of_hex b) (bytes_of_hex a)
   | _ -> failwith ("atom " ^ atom)
 
+let status_name = function NORMAL -> "NORMAL" | ABNORMAL -> "ABNORMAL" | CRASH -> "CRASH" | TIMEOUT -> "TIMEOUT"
+
 let handle toks = match toks with
+  | ["classify"; t; rc] ->
+      let st = classify (t = "T") (z_of rc) in
+      Printf.sprintf "%s %s crashes=%b hangs=%b" (status_name st)
+        (match reported_code st (z_of rc) with None -> "None" | Some z -> string_of_int (int_of_z z))
+        (crashes_verdict st) (hangs_verdict st)
   | ["load"; atom; d] -> res str_of_tc ((load_of atom) (bytes_of_hex d))
   | ["splitlines"; d] -> "ok " ^ str_of_parts (splitlines (bytes_of_hex d))
   | ["markers"; d] -> (match find_markers (bytes_of_hex d) with
